@@ -339,6 +339,24 @@ def rule_normal_form(ck: Check, repo: Repo, rid: str = "R9") -> None:
         raise AnalysisError("get_reuse_info: exactly one ReuseInfo(...) expected")
     args = named_args(calls[0])
     nf = _NormalForm(repo)
+    # a BLANK text is not a value at all: it is written as `SPDX-FileCopyrightText: 2020 ` (a notice without holder), read
+    # back without the trailing blank, and the identical second run adds the line again.  Decided: the pre-flight of the
+    # command refuses it (a usage error guarded by an emptiness test after strip()) before any file is touched.
+    an = repo.commands().get("annotate")
+    pre = [repo.functions[f"reuse.cli.annotate.{n}"] for n in ("test_mandatory_option_required",) if f"reuse.cli.annotate.{n}" in repo.functions]
+    refusals = []
+    for f in [an] + pre + [fn]:
+        if f is None:
+            continue
+        for node in ast.walk(f):
+            if isinstance(node, ast.If) and ".strip()" in ast.unparse(node.test) and re.search(r"\bnot\b|== ''|== \"\"", ast.unparse(node.test)) \
+                    and any(isinstance(x, ast.Raise) and re.search(r"UsageError|BadParameter", ast.unparse(x)) for x in ast.walk(node)):
+                refusals.append(ast.unparse(node.test)[:80])
+    r.instance("blank-values-refused", {"tests": refusals}, q)
+    if not refusals:
+        r.violation(repo.qualname_of(an) if an is not None else q, "a blank --copyright / --contributor value is accepted",
+                    "`reuse annotate -c \"\" -l MIT a.py` twice: run 1 writes `SPDX-FileCopyrightText: 2020 ` (trailing blank, no holder), run 2"
+                    " reads it back without the blank and writes a second line - the file changes on an identical re-run", repo.loc(fn))
     for field in ("copyright_lines", "contributor_lines"):
         if field not in args:
             raise AnalysisError(f"get_reuse_info: ReuseInfo field {field} is not passed by keyword")
